@@ -16,7 +16,37 @@ LEAVES = {
     "int": 7,
 }
 LEAVES2 = {"IntString": "22", "FloatString": "2.5", "BooleanString": "False", "IsoDateString": "2021-03-04",
-           "IsoTimeString": "01:02:03", "IsoDatetimeString": "2021-03-04T05:06:07", "int": 8}
+           "IsoTimeString": "01:02:03+05:30", "IsoDatetimeString": "2021-03-04T05:06:07-05:00", "int": 8}
+
+
+def _reference(h, v):
+    """the value the string denotes, computed WITHOUT the library (stdlib parsers on canonical spellings); None = no reference"""
+    import datetime
+    n = getattr(h, "__name__", "")
+    try:
+        if n == "IntString":
+            return int(v)
+        if n == "FloatString":
+            return float(v)
+        if n == "BooleanString":
+            return {"true": True, "false": False}[v.lower()]
+        if n == "IsoDateString":
+            return datetime.date.fromisoformat(v)
+        if n == "IsoTimeString":
+            return datetime.time.fromisoformat(v)
+        if n == "IsoDatetimeString":
+            return datetime.datetime.fromisoformat(v)
+    except Exception:
+        return None
+    return None
+
+
+def _same_instant(got, ref):
+    import datetime
+    if isinstance(ref, (datetime.datetime, datetime.time)):
+        # same wall clock AND same offset (== on aware values only compares the instant; on naive ones the fields)
+        return got == ref and got.utcoffset() == ref.utcoffset() and got.replace(tzinfo=None) == ref.replace(tzinfo=None)
+    return got == ref
 
 
 def paths(max_depth):
@@ -30,7 +60,7 @@ def paths(max_depth):
 
 
 def _cases(tier):
-    leaves = list(LEAVES) if tier != "quick" else ["IntString", "BooleanString", "IsoDateString", "int"]
+    leaves = list(LEAVES) if tier != "quick" else ["IntString", "BooleanString", "IsoDateString", "IsoDatetimeString", "int"]
     for p in paths(3 if tier == "quick" else 4):
         for leaf in leaves:
             for variant in ("plain", "empty_containers", "absent", "two_values"):
@@ -124,23 +154,23 @@ def _expect(h, v):
     return v
 
 
-def _same(got, exp, h):
+def _same(got, exp, h, orig=None):
     """got equals exp, and pseudo-typed positions hold instances of the pseudo-type"""
     if exp is None:
         return got is None
     k = program.hint_kind(h)
     if k == "pseudo":
-        return isinstance(got, h) and got == exp
+        return isinstance(got, h) and got == exp and (orig is None or _reference(h, orig) is None or _same_instant(got, _reference(h, orig)))
     if k == "union":
         args = [a for a in typing.get_args(h) if a is not type(None)]
         if len(args) == 1:
-            return _same(got, exp, args[0])
+            return _same(got, exp, args[0], orig)
     if k == "list" and isinstance(exp, list):
         (a,) = typing.get_args(h)
-        return isinstance(got, list) and len(got) == len(exp) and all(_same(g, e, a) for g, e in zip(got, exp))
+        return isinstance(got, list) and len(got) == len(exp) and all(_same(g, e, a, o) for g, e, o in zip(got, exp, orig if isinstance(orig, list) else [None] * len(exp)))
     if k == "dict" and isinstance(exp, dict):
         a = typing.get_args(h)[1]
-        return isinstance(got, dict) and got.keys() == exp.keys() and all(_same(got[x], exp[x], a) for x in exp)
+        return isinstance(got, dict) and got.keys() == exp.keys() and all(_same(got[x], exp[x], a, orig.get(x) if isinstance(orig, dict) else None) for x in exp)
     return type(got) is type(exp) and got == exp
 
 
@@ -208,14 +238,14 @@ def execute(case):
                                 h = hints[name]
                                 if conv:
                                     exp = _expect(h, orig)
-                                    if not _same(got, exp, h):
+                                    if not _same(got, exp, h, orig):
                                         V("converted_value_wrong" if name == attr.get(key, "a") else "other_field_modified",
                                           f"sample#{i} field {name}: annotation {h!r}, original {orig!r}, holds {got!r} ({type(got).__name__}), "
                                           f"expected {exp!r}")
                                 elif fw == "attrs" and (name in ("p0", "d") or (name == attr.get(key, "a") and case["path"] in ("", "O")
                                                                                   and case["leaf"] in ("IntString", "FloatString"))):
                                     exp = _expect(h, orig)
-                                    if not _same(got, exp, h):
+                                    if not _same(got, exp, h, orig):
                                         V("attrs_field_converter_wrong", f"sample#{i}: {orig!r} -> {got!r}, expected {exp!r}")
                                 elif not (fw == "attrs" and name == attr.get(key, "a") and case["path"] in ("", "O")):  # known-finding leaves
                                     if not (type(got) is type(orig) and got == orig):
